@@ -82,6 +82,7 @@ struct GraphParams
 {
     long maxFiles = 6;
     bool avoidIndirectUnits = false; // avoidance switch for the known "imports reachable only through local intermediates" defects
+    bool unitsHeavy = false; // graphs made mostly of units: more files, chains of imported units, ordinary units with several imported children
 };
 
 bool isStandardUnit(const std::string &n);
